@@ -22,7 +22,7 @@
    not collected, handles survive removal, recreated children start from zero, sequential histories. *)
 Require Import PV.Base.Prelude PV.Model.Conc PV.Model.VecConc.
 Require Import PV.Proofs.VecConcBase PV.Proofs.VecConcLin PV.Proofs.VecConcFacts PV.Proofs.VecConcRT.
-Require Import PV.Spec.SpecC10 PV.Proofs.VecConcStrict PV.Proofs.VecConcSpec PV.Proofs.VecConcSpec2 PV.Proofs.VecConcSpec3 PV.Proofs.VecConcSpec4 PV.Proofs.VecConcSpec5 PV.Proofs.VecConcSpec6.
+Require Import PV.Spec.SpecC10 PV.Proofs.VecConcStrict PV.Proofs.VecConcSpec PV.Proofs.VecConcSpec2 PV.Proofs.VecConcSpec3 PV.Proofs.VecConcSpec4 PV.Proofs.VecConcSpec5 PV.Proofs.VecConcSpec6 PV.Proofs.VecConcSpec7 PV.Proofs.VecConcSpec8 PV.Proofs.VecConcSpec9.
 From Coq Require Import Sorted Permutation.
 Open Scope N_scope.
 
@@ -202,7 +202,7 @@ Proof. exact (conj (classify_strict nl es) (conj (classify_known nl es) (classif
          Proofs/VecConcSpec5.v: entry -> actions with ACollect -> KSnap and KEnd on the last entry of the collection's window;
          Proofs/VecConcSpec6.v: the simulation SimR of the spec's sequential map, values as sums of amounts, thread handle, thread
          snapshot).  THE FULL STATEMENT IS THEREFORE A THEOREM; the _partial* theorems are kept as its stages.
-   [c10_strict_failure_is_known_class] is not attempted: it needs (b) and its converse. *)
+   [c10_strict_failure_is_known_class] is proved as well (below; Proofs/VecConcSpec7-9.v). *)
 Theorem c10_relaxed_spec_of_validated_partial nl nth es :
   vcheck nl nth es = true -> in_domain nth es = true -> proved_clauses2 nl es = true.
 Proof. exact (relaxed_spec_of_validated_partial2 nl nth es). Qed.
@@ -275,6 +275,27 @@ Proof.
   split; [apply (relaxed_spec_of_validated_full 1 2) | apply (relaxed_spec_of_validated_full 1 2)]; vm_compute; reflexivity.
 Qed.
 Check c10_relaxed_spec_of_validated : forall nl nth es, vcheck nl nth es = true -> in_domain nth es = true -> spec_c10_relaxed nl es = true.
+
+(* the check's VIOLATION / KNOWN-FINDING split is sound for every trace the model accepts: on validated traces in the domain a failure
+   of the strict spec is always in the recorded class (strict fails, relaxed holds, a collection overlaps updates to two different
+   label-value tuples).  Proof: while a collection reads, the key set is stable and each child is read once (c10_collect_keys_stable);
+   if no collection overlaps updates to two tuples, at most one shown child is updated inside a collection's window, so the
+   collection can take effect as ONE action at the first read of that child (or at its key snapshot), which yields a strict
+   linearisation (Proofs/VecConcSpec7-9.v); the strict search's NotFound is exact, an exhausted budget counts as pass. *)
+Theorem c10_collect_keys_stable nl tr s newer tm t c v older : vrun (vinit nl) tr = Some s ->
+  g_lin s = newer ++ (tm, t, ARead c, RValue v) :: older -> keys_stable older t c.
+Proof. intros H. exact (reach_kinv nl tr s (vrun_reach nl tr s H) newer tm t c v older). Qed.
+Theorem c10_strict_failure_is_known_class nl nth es :
+  vcheck nl nth es = true -> in_domain nth es = true -> spec_c10_strict nl es = false -> known_c10 nl es = true.
+Proof. exact (strict_failure_is_known_class nl nth es). Qed.
+(* equivalently, with the one-pass classifier of the check driver: class 2 (a strict failure outside the known class) is impossible *)
+Theorem c10_classifier_never_2 nl nth es : vcheck nl nth es = true -> in_domain nth es = true -> classify nl es <> 2.
+Proof.
+  intros Hv Hd H2. pose proof (classify_strict nl es) as Hs. pose proof (classify_known nl es) as Hk. rewrite H2 in Hs, Hk. cbn in Hs, Hk.
+  rewrite (strict_failure_is_known_class nl nth es Hv Hd Hs) in Hk. discriminate.
+Qed.
+Check c10_strict_failure_is_known_class : forall nl nth es,
+  vcheck nl nth es = true -> in_domain nth es = true -> spec_c10_strict nl es = false -> known_c10 nl es = true.
 
 (* a generated (real) trace is in the domain; on it the whole relaxed spec also evaluates to true *)
 Example c10_race_in_domain :
@@ -397,3 +418,6 @@ Print Assumptions c10_nocollect_in_domain.
 Print Assumptions c10_search_not_refuted.
 Print Assumptions c10_relaxed_spec_of_validated.
 Print Assumptions c10_relaxed_spec_of_validated_examples.
+Print Assumptions c10_collect_keys_stable.
+Print Assumptions c10_strict_failure_is_known_class.
+Print Assumptions c10_classifier_never_2.
